@@ -1037,6 +1037,16 @@ def witnesses():
     src = W_HEADER + "\n@proc\ndef foo(n: size, x: R[4]):\n    for i in seq(0, 1):\n        if -i + n > 0:\n            x[i] = 1.0\n"
     p = load(src).foo
     yield "witness:minus-zero", src, [(S.unroll_loop(p, "i"), ["unroll_loop i"])], None
+    # --literal after unrolling (the front end folds it)
+    src = W_HEADER + "\n@proc\ndef foo(n: size, x: R[4]):\n    for i in seq(1, 2):\n        if --i + n > 0:\n            x[i] = 1.0\n"
+    p = load(src).foo
+    yield "witness:double-minus-literal", src, [(S.unroll_loop(p, "i"), ["unroll_loop i"])], None
+    # a loop with a lower bound extracted into a sub-procedure that does not get the assertion making the trip count
+    # non-negative
+    src = (W_HEADER + "\n@proc\ndef foo(m: size, x: R[m]):\n    assert m >= 2\n    for j in seq(2, m):\n"
+           "        x[j] = 1.0\n")
+    p = load(src).foo
+    yield "witness:extent-may-be-negative", src, [(S.extract_subproc(p, p.body(), "sub_a")[0], ["extract_subproc body sub_a"])], None
     # partial evaluation against the precondition: the assertion becomes unsatisfiable
     src = W_HEADER + "\n@proc\ndef foo(n: size, x: R[n]):\n    assert n >= 3\n    x[2] = 1.0\n"
     p = load(src).foo
@@ -1307,6 +1317,9 @@ def main():
                     key = "print:roundtrip-text:%s" % first_diff(text, t2)
                     if re.sub(r"-0\b(?!\.)", "0", text) == t2:
                         key = "print:roundtrip-text:minus-zero"
+                    elif re.sub(r"-0\b(?!\.)", "0", re.sub(r"--(\d)", r"\1", text)) == t2:
+                        # the type checker folds a unary minus applied to a literal: --4 comes back as 4
+                        key = "print:roundtrip-text:double-minus-literal"
                     emit({"t": "finding", "key": key,
                           "what": "printing the re-parsed procedure gives a different text",
                           "replay": dict(replay, reprinted=t2)})
